@@ -229,7 +229,7 @@ def family_replay(chk, wvbin, wd, pid, plan):
             if m["prop"] != pid:
                 others[m["prop"]] = others.get(m["prop"], 0) + 1
                 continue
-            key = "|".join([m["prop"], m["kind"], m["fen"]] + [str(m[k]) for k in ("mv", "persp", "ply") if k in m])
+            key = "|".join([m["prop"], m["kind"], m["fen"]] + [str(m[k]) for k in ("mv",) if k in m])
             chk.violation(key, "%s: %s" % (m["kind"], json.dumps({k: v for k, v in m.items() if k not in ("prop", "kind")}, sort_keys=True)),
                           {"family_case": m, "replay": "wv families on the GEN line of this fen"})
         if others:
@@ -254,7 +254,48 @@ def extra_rules(chk, pid, wvbin, wd, quick):
     chk.coverage["rule"] += "; plus specification-enumerated families (3/4-man endgames, en passant with pins, castling through/into attack, promotions, pins): every enumerated position is distinct, counted non-trivial when the side to move is in check"
 
 
-CHECKS = {"C01": check_rules, "C02": check_rules, "C10": check_rules}
+# ------------------------------------------------------------------------------ C05 / C13
+
+def eval_samples(path, want_terminal):
+    out = []
+    n = nt = 0
+    seen = set()
+    for l in open(path):
+        e = json.loads(l)
+        if e.get("ev") != "Eval":
+            continue
+        n += 1
+        key = "".join(e["pos"]["board"]) + e["pos"]["stm"]
+        asym = e["pos"]["board"] != e["mirror"]["board"]
+        if key not in seen and asym:
+            seen.add(key)
+            nt += 1
+        if len(out) < 3 and n % 50 == 7:
+            out.append({"board": "".join(e["pos"]["board"]), "stm": e["pos"]["stm"], "scores": e["scores"][:4]})
+    return n, nt, out
+
+
+def check_eval(pid, tier, seed):
+    chk = Check(pid, tier, seed, "exploration")
+    wd = workdir(pid)
+    wvbin = build()
+    quick = tier == "quick"
+    games, plies = (40, 60) if quick else (800, 100)
+    info = play_traces(chk, wvbin, wd, "eval", games, plies)
+    validate_stream(chk, os.path.join(wd, "play.eval.ndjson"), pid, NPROC if quick else NPROC * 3, header="EvalConsts")
+    n, nt, samples = eval_samples(os.path.join(wd, "play.eval.ndjson"), pid == "C05")
+    chk.coverage.update({"evaluations": n, "distinct_nontrivial": nt, "samples": samples,
+                         "rule": "positions visited by seeded random play, each evaluated from both perspectives at plies 0,1,2,9,10,11,64 together with its colour-mirrored twin (mirror verified against Chess!Mirror by TLC); non-trivial = distinct positions that differ from their own mirror image"})
+    if pid == "C05":
+        tot = family_replay(chk, wvbin, wd, pid, family_plan(pid, quick, seed))
+        chk.coverage["evaluations"] += tot.get("positions", 0)
+        chk.coverage["distinct_nontrivial"] += tot.get("mates", 0) + tot.get("stalemates", 0)
+        chk.coverage["rule"] += "; plus every position of the specification-enumerated endgame families, status (mate/stalemate/open) decided by Chess.tla - non-trivial there = terminal positions"
+    chk.assumptions += ["Chess.tla decides mate/stalemate/open and the mirror transformation", "the heuristic itself is not specified: only the terminal clauses and the symmetry relations are judged"]
+    chk.finish()
+
+
+CHECKS = {"C01": check_rules, "C02": check_rules, "C10": check_rules, "C05": check_eval, "C13": check_eval}
 
 
 def main():
